@@ -5,7 +5,10 @@ from replay.C01 import native
 
 
 def replay(name, e, src_root):
-    req = {'slack': 128 if 'burst+1chunk' in name else 0}
+    # the sweep of the thorough tier checks the bound that IS proved, L*T + L + 128: the excess of one 128-byte chunk after a stale refill
+    # stamp is the recorded known finding (known_findings.json, obligations ...[one chunk granted from a full bucket ...]); anything beyond
+    # it, a bucket outside its cap, a stalled waiter or a sleeping unlimited limiter is reported
+    req = {'slack': 128 if ('burst+1chunk' in name or 'native-sweep' in name) else 0}
     out = native(req, src_root, script='native_c20.py')
     path = write_replay(name, e, note='native replay: real LimitedRateLimiter under a virtual clock, all windows of a schedule battery',
                         extra={'request': req, 'native': out})
